@@ -49,7 +49,7 @@ func (w *World) lemmaVC(lm *Lemma) *VC {
 	vc := &VC{w: w, enc: NewEnc(w), name: "lemma." + lm.Name,
 		vals: map[ssa.Value]string{}, tuples: map[ssa.Value][]string{}, ordinals: map[string]int{},
 		globals: map[*ssa.Global]int{}, params: map[string]SpecVal{}, assumed: map[string]bool{}, usedLemmas: map[string]bool{}, usedFns: map[string]bool{},
-		debugVars: map[string][]debugDef{}, callCount: map[string]int{}, labels: map[string]*stateLabel{}}
+		debugVars: map[string][]debugDef{}, callCount: map[string]int{}, labels: map[string]*stateLabel{}, opaquePreds: map[string]*opaqueInfo{}, heapAlloc: map[string]string{}, undefinedHeap: map[string]bool{}}
 	vc.pkg = w.pkgForFile(lm.File)
 	vc.defTags = lm.Tags
 	func() {
